@@ -7,6 +7,7 @@ package manifam
 
 import (
 	"fmt"
+	"runtime"
 	"strings"
 	"testing"
 
@@ -20,7 +21,28 @@ type c13Case struct {
 	Pom *pomCase `json:"pom,omitempty"`
 }
 
-func propC13(c c13Case) (ev.Outcome, error) {
+// propC13 decides one case. A panic of the code under test becomes a failing verdict whose
+// text is deterministic (function names and lines, no addresses), so that rapid recognises
+// the same failure while shrinking.
+func propC13(c c13Case) (o ev.Outcome, err error) {
+	defer func() {
+		if r := recover(); r != nil {
+			pcs := make([]uintptr, 40)
+			n := runtime.Callers(2, pcs)
+			frames := runtime.CallersFrames(pcs[:n])
+			var lines []string
+			for {
+				f, more := frames.Next()
+				if !strings.HasPrefix(f.Function, "runtime.") && len(lines) < 10 {
+					lines = append(lines, fmt.Sprintf("  %s (%s:%d)", f.Function, f.File, f.Line))
+				}
+				if !more {
+					break
+				}
+			}
+			err = fmt.Errorf("panic: %v\n%s", r, strings.Join(lines, "\n"))
+		}
+	}()
 	switch {
 	case c.Npm != nil:
 		return propC13Npm(c.Npm)
@@ -44,6 +66,11 @@ func TestC13_pom(t *testing.T) {
 	}, propC13)
 }
 
+// chance draws a biased coin whose minimal (shrunk) value is false.
+func chance(t *rapid.T, label string, num, den int) bool {
+	return rapid.IntRange(0, den-1).Draw(t, label) >= den-num
+}
+
 // ---------------------------------------------------------------------------------------
 // pom.xml generator
 
@@ -51,7 +78,7 @@ var pomGroups = []string{"org.example", "com.acme.lib", "io.x", "junit", "common
 var pomArtifacts = []string{"core", "web-api", "util_x", "a.b", "junit", "guava", "commons-io", "x"}
 var pomVersions = []string{"1.0", "2.3.4", "1.0.0-RC1", "4.12", "1.2.3.Final", "0.9-SNAPSHOT", "[1.0,2.0)", "3", "31.1-jre"}
 var pomNewVersions = []string{"2", "9.9.9", "3.1", "1.0.1", "2.0.0-RC2", "10.2.3.Final", "[2.0,3.0)", "5.0-SNAPSHOT", "1", "4.13.2", "32.0.0-jre", "7.Final"}
-var pomComments = []string{"managed versions", "TODO: bump", "see https://example.com/?a=1&b=2 <later>", "license: Apache 2.0", " spaced  out ", "${not.a.property}"}
+var pomComments = []string{"x", "managed versions", "TODO: bump", "see https://example.com/?a=1&b=2 <later>", "license: Apache 2.0", " spaced  out ", "${not.a.property}"}
 var pomPropNames = []string{"lib.version", "rev", "dep-x.version", "junitVersion", "v_1", "version.guava"}
 
 type pomPropRec struct {
@@ -78,7 +105,7 @@ func (g *pomGen) coord() (string, string) {
 func (g *pomGen) addProp(file int, profile string, val string) string {
 	g.n++
 	name := fmt.Sprintf("%s%d", rapid.SampledFrom(pomPropNames).Draw(g.t, "prop_name"), g.n)
-	p := pomProp{Name: name, Val: val, CDATA: rapid.IntRange(0, 7).Draw(g.t, "prop_cdata") == 0}
+	p := pomProp{Name: name, Val: val, CDATA: chance(g.t, "prop_cdata", 1, 8)}
 	f := g.files[file]
 	if profile == "" {
 		f.Props = append(f.Props, p)
@@ -96,9 +123,10 @@ func (g *pomGen) addProp(file int, profile string, val string) string {
 // propFor returns the name of a property usable by a dependency declared in (file,
 // profile): a new one (declared locally, or in the other file), or an existing one.
 func (g *pomGen) propFor(file int, profile string, val string) string {
+	// 0..4 local project-level, 5..6 local profile-level (project-level outside profiles), 7 other file, 8..9 reuse
 	choice := rapid.IntRange(0, 9).Draw(g.t, "prop_place")
 	// reuse an existing property that is in scope
-	if choice <= 1 {
+	if choice >= 8 {
 		var inScope []string
 		for _, p := range g.props {
 			if (p.profile == "" && (file == 0 || p.file == 1)) || (p.profile != "" && p.profile == profile && p.file == file) {
@@ -109,7 +137,7 @@ func (g *pomGen) propFor(file int, profile string, val string) string {
 			return rapid.SampledFrom(inScope).Draw(g.t, "prop_reuse")
 		}
 	}
-	if g.hasPar && choice == 2 {
+	if g.hasPar && choice == 7 {
 		if file == 0 {
 			return g.addProp(1, "", val) // declared in the parent, used by the child
 		}
@@ -118,7 +146,7 @@ func (g *pomGen) propFor(file int, profile string, val string) string {
 		g.files[0].Props = append(g.files[0].Props, pomProp{Name: name, Val: rapid.SampledFrom(pomVersions).Draw(g.t, "override_val")})
 		return name
 	}
-	if profile != "" && choice <= 6 {
+	if profile != "" && choice >= 3 {
 		return g.addProp(file, profile, val)
 	}
 	return g.addProp(file, "", val)
@@ -126,12 +154,12 @@ func (g *pomGen) propFor(file int, profile string, val string) string {
 
 func (g *pomGen) version(file int, profile string) string {
 	switch rapid.IntRange(0, 11).Draw(g.t, "ver_form") {
-	case 0, 1, 2:
+	case 7, 8, 9:
 		return "${" + g.propFor(file, profile, rapid.SampledFrom(pomVersions).Draw(g.t, "prop_val")) + "}"
-	case 3:
+	case 10:
 		pre := rapid.SampledFrom([]string{"1.", "1.0.", "2.1.", "v"}).Draw(g.t, "ver_prefix")
 		return pre + "${" + g.propFor(file, profile, rapid.SampledFrom([]string{"3", "4.5", "0", "12"}).Draw(g.t, "prop_val")) + "}"
-	case 4:
+	case 11:
 		suf := rapid.SampledFrom([]string{"-jre", ".Final", ".0", "-SNAPSHOT"}).Draw(g.t, "ver_suffix")
 		return "${" + g.propFor(file, profile, rapid.SampledFrom([]string{"3", "4.5", "31.1"}).Draw(g.t, "prop_val")) + "}" + suf
 	case 5:
@@ -151,24 +179,24 @@ func (g *pomGen) version(file int, profile string) string {
 func (g *pomGen) dep(file int, profile string) pomDep {
 	grp, art := g.coord()
 	d := pomDep{G: grp, A: art, Ver: g.version(file, profile)}
-	if rapid.IntRange(0, 5).Draw(g.t, "dep_type") == 0 {
+	if chance(g.t, "dep_type", 1, 6) {
 		d.Type = rapid.SampledFrom([]string{"jar", "pom", "test-jar", "war"}).Draw(g.t, "type")
 	}
-	if rapid.IntRange(0, 6).Draw(g.t, "dep_classifier") == 0 {
+	if chance(g.t, "dep_classifier", 1, 7) {
 		d.Classifier = rapid.SampledFrom([]string{"tests", "sources", "jdk8"}).Draw(g.t, "classifier")
 	}
-	if rapid.IntRange(0, 2).Draw(g.t, "dep_scope") == 0 {
+	if chance(g.t, "dep_scope", 1, 3) {
 		d.Scope = rapid.SampledFrom([]string{"test", "provided", "runtime", "compile"}).Draw(g.t, "scope")
 	}
-	d.Optional = rapid.IntRange(0, 7).Draw(g.t, "dep_optional") == 0
-	if rapid.IntRange(0, 6).Draw(g.t, "dep_excl") == 0 {
+	d.Optional = chance(g.t, "dep_optional", 1, 8)
+	if chance(g.t, "dep_excl", 1, 7) {
 		d.Excl = []string{"org.exclude:exclude"}
 		if rapid.Bool().Draw(g.t, "dep_excl2") {
 			d.Excl = append(d.Excl, "*:*")
 		}
 	}
-	d.VerCDATA = rapid.IntRange(0, 9).Draw(g.t, "ver_cdata") == 0
-	if rapid.IntRange(0, 5).Draw(g.t, "dep_comment") == 0 {
+	d.VerCDATA = chance(g.t, "ver_cdata", 1, 10)
+	if chance(g.t, "dep_comment", 1, 6) {
 		d.Comment = rapid.SampledFrom(pomComments).Draw(g.t, "comment")
 	}
 	d.Order = rapid.SampledFrom([]int{0, 0, 0, 1, 2}).Draw(g.t, "dep_order")
@@ -186,36 +214,36 @@ func (g *pomGen) deps(file int, profile string, max int) []pomDep {
 
 func (g *pomGen) layout(f *pomFile) {
 	f.XMLDecl = rapid.Bool().Draw(g.t, "xml_decl")
-	f.NS = rapid.IntRange(0, 2).Draw(g.t, "ns") != 0
-	if rapid.IntRange(0, 3).Draw(g.t, "header") == 0 {
+	f.NS = chance(g.t, "ns", 2, 3)
+	if chance(g.t, "header", 1, 4) {
 		f.Header = "Licensed under the Apache License, Version 2.0;\n  see <https://www.apache.org/licenses/> & NOTICE"
 	}
 	f.Indent = rapid.SampledFrom([]string{"  ", "  ", "    ", "\t"}).Draw(g.t, "indent")
 	f.BlankLine = rapid.Bool().Draw(g.t, "blank_line")
-	f.NoFinalNL = rapid.IntRange(0, 4).Draw(g.t, "no_final_nl") == 0
-	if rapid.IntRange(0, 5).Draw(g.t, "tail") == 0 {
+	f.NoFinalNL = chance(g.t, "no_final_nl", 1, 5)
+	if chance(g.t, "tail", 1, 6) {
 		f.Tail = "end of file"
 	}
-	if rapid.IntRange(0, 2).Draw(g.t, "meta") == 0 {
+	if chance(g.t, "meta", 1, 3) {
 		f.Name = rapid.SampledFrom([]string{"My App", "Tools &amp; more", "<![CDATA[<b>bold</b> & co]]>", "caf&#233; &lt;x&gt;", "quote &quot;q&quot; &apos;a&apos;"}).Draw(g.t, "name_text")
 		if rapid.Bool().Draw(g.t, "has_desc") {
 			f.Desc = rapid.SampledFrom([]string{"plain", "line one\n    line two", "uses ${project.version} &amp; <![CDATA[]] > ]]>"}).Draw(g.t, "desc_text")
 		}
 		f.Sections = append(f.Sections, "meta")
 	}
-	if rapid.IntRange(0, 5).Draw(g.t, "modules") == 0 {
+	if chance(g.t, "modules", 1, 6) {
 		f.Modules = []string{"module-a", "../sibling"}
 		f.Sections = append(f.Sections, "modules")
 	}
 	if len(f.Props) > 0 || f.HasProps {
 		f.Sections = append(f.Sections, "props")
-		if rapid.IntRange(0, 4).Draw(g.t, "prop_note") == 0 {
+		if chance(g.t, "prop_note", 1, 5) {
 			f.PropNote = rapid.SampledFrom(pomComments).Draw(g.t, "comment")
 		}
 	}
 	if len(f.Deps) > 0 || f.HasDeps {
 		f.Sections = append(f.Sections, "deps")
-		if rapid.IntRange(0, 4).Draw(g.t, "deps_note") == 0 {
+		if chance(g.t, "deps_note", 1, 5) {
 			f.DepsNote = rapid.SampledFrom(pomComments).Draw(g.t, "comment")
 		}
 	}
@@ -234,7 +262,7 @@ func (g *pomGen) layout(f *pomFile) {
 	}
 	for range f.Sections {
 		note := ""
-		if rapid.IntRange(0, 4).Draw(g.t, "sec_note") == 0 {
+		if chance(g.t, "sec_note", 1, 5) {
 			note = rapid.SampledFrom(pomComments).Draw(g.t, "comment")
 		}
 		f.SecNotes = append(f.SecNotes, note)
@@ -253,8 +281,8 @@ func (g *pomGen) plugins(file int, max int) []pomPlugin {
 		if rapid.Bool().Draw(g.t, "plugin_version") {
 			p.V = rapid.SampledFrom([]string{"3.8.1", "2.22.2"}).Draw(g.t, "plugin_v")
 		}
-		p.Managed = rapid.IntRange(0, 3).Draw(g.t, "plugin_managed") != 0
-		p.Config = rapid.IntRange(0, 2).Draw(g.t, "plugin_config") == 0
+		p.Managed = !chance(g.t, "plugin_unmanaged", 1, 4)
+		p.Config = chance(g.t, "plugin_config", 1, 3)
 		nd := rapid.IntRange(0, 2).Draw(g.t, "plugin_deps")
 		for j := 0; j < nd; j++ {
 			p.Deps = append(p.Deps, g.dep(file, ""))
@@ -269,18 +297,18 @@ func genPomCase(t *rapid.T, col *ev.Collector) *pomCase {
 	c := &pomCase{}
 	child := &c.Child
 	g.files[0] = child
-	g.hasPar = rapid.IntRange(0, 9).Draw(t, "has_parent") < 4
+	g.hasPar = chance(t, "has_parent", 4, 10)
 	if g.hasPar {
 		par := &pomFile{G: "org.parent", A: "parent-pom", V: rapid.SampledFrom([]string{"1.1.1", "7", "2.0-SNAPSHOT"}).Draw(t, "parent_v"), Packaging: "pom"}
 		c.Parent = par
 		g.files[1] = par
 		ref := &pomParentRef{G: par.G, A: par.A, V: par.V}
 		switch rapid.IntRange(0, 4).Draw(t, "parent_place") {
-		case 0:
-			c.ParentPath, ref.RelPath = "parent/pom.xml", "../parent/pom.xml"
 		case 1:
-			c.ParentPath, ref.RelPath = "parent/pom.xml", "../parent"
+			c.ParentPath, ref.RelPath = "parent/pom.xml", "../parent/pom.xml"
 		case 2:
+			c.ParentPath, ref.RelPath = "parent/pom.xml", "../parent"
+		case 0:
 			c.ParentPath, ref.RelPath = "pom.xml", ""
 		case 3:
 			c.ParentPath, ref.RelPath = "pom.xml", "../pom.xml"
@@ -290,13 +318,13 @@ func genPomCase(t *rapid.T, col *ev.Collector) *pomCase {
 		child.Parent = ref
 	}
 	child.A = "my-app"
-	if !g.hasPar || rapid.Bool().Draw(t, "own_group") {
+	if !g.hasPar || !rapid.Bool().Draw(t, "inherit_group") {
 		child.G = "com.mycompany.app"
 	}
-	if !g.hasPar || rapid.Bool().Draw(t, "own_version") {
+	if !g.hasPar || !rapid.Bool().Draw(t, "inherit_version") {
 		child.V = rapid.SampledFrom([]string{"1.0", "0.1-SNAPSHOT"}).Draw(t, "child_v")
 	}
-	if rapid.IntRange(0, 3).Draw(t, "packaging") == 0 {
+	if chance(t, "packaging", 1, 4) {
 		child.Packaging = rapid.SampledFrom([]string{"jar", "war", "pom"}).Draw(t, "packaging_v")
 	}
 
@@ -309,16 +337,16 @@ func genPomCase(t *rapid.T, col *ev.Collector) *pomCase {
 	if rapid.Bool().Draw(t, "plain_props") {
 		child.Props = append(child.Props, pomProp{Name: "project.build.sourceEncoding", Val: "UTF-8"}, pomProp{Name: "maven.compiler.source", Val: "1.8"})
 	}
-	child.HasProps = rapid.IntRange(0, 5).Draw(t, "empty_props") == 0
+	child.HasProps = chance(t, "empty_props", 1, 6)
 
 	child.Deps = g.deps(0, "", 4)
 	child.Mgmt = g.deps(0, "", 2)
-	child.HasDeps = rapid.IntRange(0, 5).Draw(t, "empty_deps") == 0
-	child.HasMgmt = rapid.IntRange(0, 5).Draw(t, "empty_mgmt") == 0
+	child.HasDeps = chance(t, "empty_deps", 1, 6)
+	child.HasMgmt = chance(t, "empty_mgmt", 1, 6)
 	for i := range child.Profiles {
 		p := &child.Profiles[i]
 		p.Deps = g.deps(0, p.ID, 2)
-		if rapid.IntRange(0, 2).Draw(t, "profile_mgmt") == 0 {
+		if chance(t, "profile_mgmt", 1, 3) {
 			p.HasMgmt = true
 			p.Mgmt = g.deps(0, p.ID, 2)
 		}
@@ -338,7 +366,7 @@ func genPomCase(t *rapid.T, col *ev.Collector) *pomCase {
 	// dependencies into a dependencyManagement entry (of the child or of the parent)
 	for i := range child.Deps {
 		d := &child.Deps[i]
-		if rapid.IntRange(0, 4).Draw(t, "managed") != 0 {
+		if !chance(t, "managed", 1, 5) {
 			continue
 		}
 		m := pomDep{G: d.G, A: d.A, Ver: d.Ver, Type: d.Type, Classifier: d.Classifier, VerCDATA: d.VerCDATA}
@@ -386,10 +414,10 @@ func genPomCase(t *rapid.T, col *ev.Collector) *pomCase {
 			continue
 		}
 		seen[s.name()] = true
-		if !s.visible && strings.Contains(s.verLit, "${") {
+		if !s.visible && (strings.Contains(s.verLit, "${") || s.file == 1) {
 			continue // the suggester never proposes these
 		}
-		if rapid.IntRange(0, 2).Draw(t, "update") != 0 {
+		if !chance(t, "update", 1, 3) {
 			continue
 		}
 		cur, err := an.interp(s)
